@@ -163,6 +163,36 @@ theorem multi_char_comment_skipped :
     (systemFromString ["//".toList, "#".toList] .none "->".toList "// note\n  // x -> y\nA -> B\n# z".toList).toOption.map
       (fun rs => rs.map fun r => (keysOf r.reac, keysOf r.prod)) = some [([['A']], [['B']])] := by decide +kernel
 
+/-! ### copy -/
+
+/-- **A copy compares equal to its original** — for EVERY reaction object, whatever the order of its containers (built
+from a plain dict, a set, an OrderedDict in arbitrary order, or edited in place afterwards), with or without inactive
+parts, parameter and name: `copy()` hands `copy.copy` of the (Ordered)dict attributes to the constructor, `_init_stoich`
+keeps OrderedDicts in their order, so the copy has the same dictionaries in the same order, compares equal
+(`OrderedDict.__eq__` is order sensitive) and prints the same text under every printer setting. -/
+theorem copy_eq (arrow : Str) (wp wn : Bool) (r : Reaction) :
+    r.copy.reac = r.reac ∧ r.copy.prod = r.prod ∧ r.copy.inactReac = r.inactReac ∧ r.copy.inactProd = r.inactProd ∧
+    Reaction.eq r.copy r = true ∧ printReaction arrow wp wn r.copy = printReaction arrow wp wn r := by
+  refine ⟨initStoich_ordered _, initStoich_ordered _, initStoich_ordered _, initStoich_ordered _, ?_, ?_⟩
+  · exact Reaction.eq_refl r
+  · rfl
+
+/-- … in particular for a reaction constructed from containers of any kind (dict / OrderedDict / set) -/
+theorem copy_of_constructed (kr kp kir kip : ContainerKind) (a b c d : Dict) (param name : Option Str) :
+    Reaction.eq (Reaction.construct kr kp kir kip a b c d param name).copy
+      (Reaction.construct kr kp kir kip a b c d param name) = true :=
+  (copy_eq [] false false _).2.2.2.2.1
+
+/-- the container TYPE matters: were the attributes handed to the constructor as plain `dict`s (`dict(v)` instead of
+`copy.copy(v)`), `_init_stoich` would re-sort them and the copy of a reaction built from an unsorted OrderedDict
+(`OH- + H+ -> H2O`) would differ from its original and print differently -/
+theorem copy_through_dict_resorts_witness :
+    let r := Reaction.construct .ordered .dict .dict .dict
+      [("OH-".toList, Coef.ofNat 1), ("H+".toList, Coef.ofNat 1)] [("H2O".toList, Coef.ofNat 1)] [] [] none none
+    Reaction.eq r.copy r = true ∧ Reaction.eq r.copyThroughDict r = false ∧
+      printReaction "->".toList false false r = some "OH- + H+ -> H2O".toList ∧
+      printReaction "->".toList false false r.copyThroughDict = some "H+ + OH- -> H2O".toList := by decide +kernel
+
 /-! ### the code as it is: quirks of the pinned source, proved on concrete witnesses (reported in notes/C12.md) -/
 
 /-- a key that contains the arrow token is outside `parse_written` (`keyOK`): the line is split inside the key and the
